@@ -142,6 +142,7 @@ type conn struct {
 	starts    []startRec
 	running   int
 	overLimit string
+	slotSID   uint32 // runSlotReuse: the stream just opened right behind an END_STREAM with the connection at its limit
 	// manualZombies: handlers of reset streams are released by the script, one at a time
 	manualZombies bool
 	bigMode       map[uint32]bool // streams requested with x-mode: big (their body is not compared here)
@@ -184,10 +185,45 @@ type conn struct {
 
 var discardLog = log.New(io.Discard, "", 0)
 
-func newConn(limit uint32, legal bool, st *stats) *conn {
+// tagSlotReuse is the known-finding class D24 (KNOWN_FINDINGS.txt).
+const tagSlotReuse = "stream-opened-right-behind-END_STREAM-at-the-limit-refused"
+
+// tcpPair returns the two ends of a loopback TCP connection (a kernel socket: a write returns when the
+// bytes are in the send buffer, not when the peer has read them - see runSlotReuse).
+var tcpMu sync.Mutex
+var tcpLn net.Listener
+
+func tcpPair() (cli, srv net.Conn, err error) {
+	tcpMu.Lock()
+	defer tcpMu.Unlock()
+	if tcpLn == nil {
+		if tcpLn, err = net.Listen("tcp", "127.0.0.1:0"); err != nil {
+			return nil, nil, err
+		}
+	}
+	if cli, err = net.Dial("tcp", tcpLn.Addr().String()); err != nil {
+		return nil, nil, err
+	}
+	if srv, err = tcpLn.Accept(); err != nil {
+		cli.Close()
+		return nil, nil, err
+	}
+	return cli, srv, nil
+}
+
+func newConn(limit uint32, legal bool, st *stats) *conn { return newConnOn(limit, legal, st, false) }
+
+func newConnOn(limit uint32, legal bool, st *stats, tcp bool) *conn {
 	c := &conn{limit: limit, legal: legal, st: st, hs: map[uint32]*hstate{}, respStatus: map[uint32]string{}, respEnded: map[uint32]bool{},
 		srvReset: map[uint32]bool{}, srvDone: make(chan struct{}), done: make(chan struct{}), watchDone: make(chan struct{})}
 	cli, srv := net.Pipe()
+	if tcp {
+		var err error
+		if cli, srv, err = tcpPair(); err != nil {
+			cli, srv = net.Pipe()
+			c.inconclusive("rig", "loopback TCP pair: %v", err)
+		}
+	}
 	c.hc = h2peer.NewHoldConn(cli)
 	c.ref = h2peer.NewRef()
 	s := &fork.Server{MaxConcurrentStreams: limit, MaxReadFrameSize: 16384}
@@ -804,7 +840,10 @@ func (c *conn) judge(upto int) {
 			cls = c.groupTag // D20 (b)
 		}
 		if rs := c.ref.Streams[r.sid]; r.kind == h2peer.OutStreamErr && (r.code == http2.ErrCodeProtocol || r.code == http2.ErrCodeRefusedStream) &&
-			rs != nil && rs.MayStart && len(c.afterRej) > 0 && uint32(c.ref.ActiveCount()+len(c.afterRej)) > c.ref.Limit {
+			rs != nil && rs.MayStart && len(c.afterRej) > 0 && uint32(c.ref.ActiveCount()+len(c.afterRej)) >= c.ref.Limit {
+			// (the reference has already seen this RST_STREAM, so the refused stream itself is no longer among
+			// the active ones: ">=" - with ">" the class was missed whenever the handler on the used-up id had
+			// not been logged yet, seen at seed 4 on a loaded machine)
 			// D20 (a), seen from the side: the server opened a stream for a HEADERS block on the
 			// used-up id (e.g. to answer it with a 400 of its own), still counts it against the
 			// concurrency limit and therefore refuses a request the reference has room for. When
@@ -812,7 +851,12 @@ func (c *conn) judge(upto int) {
 			// response itself (above); under load it may come later.
 			cls = h2peer.TagAfterRejected
 		}
-		c.violate(cls, "reaction %s is not explained by any frame sent (all frames of this group were judged; reference allowed none of them to draw it)", r)
+		if c.slotSID != 0 && r.sid == c.slotSID && r.kind == h2peer.OutStreamErr && (r.code == http2.ErrCodeProtocol || r.code == http2.ErrCodeRefusedStream) {
+			// D24: the stream the client opened at the limit right behind the END_STREAM of another one
+			cls = tagSlotReuse
+		}
+		c.violate(cls, "reaction %s is not explained by any frame sent (all frames of this group were judged; reference allowed none of them to draw it) [reference: %d active, limit %d, stream %d known=%v, ids used up by rejected blocks and reused: %v]",
+			r, c.ref.ActiveCount(), c.ref.Limit, r.sid, c.ref.Streams[r.sid] != nil, c.afterRej)
 		return
 	}
 	if c.legal && len(reacts) > 0 {
@@ -1059,12 +1103,17 @@ func (c *conn) checkStarts() {
 		if s.SID%2 == 0 {
 			c.violate("handler-even-id", "handler started for even stream id %d", s.SID)
 		}
+		rs := c.ref.Streams[s.SID]
+		d20 := (rs == nil || !rs.MayStart) && (c.afterRej[s.SID] || (s.SID%2 == 1 && s.SID > c.ref.MaxAcceptedID && s.SID <= c.ref.MaxClientID))
 		if s.SID <= c.maxStarted {
-			c.violate("handler-ids-not-increasing", "handler started for stream %d after a handler for stream %d", s.SID, c.maxStarted)
+			// (a handler on an id used up by a rejected block - D20 (a) - may be logged after the handler of a later
+			// stream on a loaded machine: that is the known class, not a second finding)
+			if !d20 {
+				c.violate("handler-ids-not-increasing", "handler started for stream %d after a handler for stream %d", s.SID, c.maxStarted)
+			}
 		} else {
 			c.maxStarted = s.SID
 		}
-		rs := c.ref.Streams[s.SID]
 		if rs == nil || !rs.MayStart {
 			st := c.ref.StateOf(s.SID)
 			cls := "handler-not-allowed:" + st.String()
